@@ -641,7 +641,7 @@ def hu_parse_audit(line):
 
 def hu_run(ck, hbin, script):
     ops = [script[0]] + [l for l in script[1:] if not l.startswith("#")]
-    out, rc, err = ck.run_bin(hbin, ops, timeout=60 if script[0].startswith("planner") else 300)
+    out, rc, err = ck.run_bin(hbin, ops, timeout=20 if script[0].startswith("planner") else 300)
     if rc == "timeout" and script[0].startswith("planner"):
         # a planner that does not come back from solve() is not a heap matter (C03/C15 territory): the run is dropped and counted
         return [], "timeout", "", None, [], []
@@ -718,7 +718,7 @@ def hu_judge(ck, hbin, script, tag, pre=None):
     user = script[0].split()[0]
     if rc == "timeout":
         ck.count("hu:planner-runs-dropped-on-timeout")
-        ck.notes.append("planner run dropped (solve() did not return within 60 s): " + script[0])
+        ck.notes.append("planner run dropped (solve() did not return within 20 s): " + script[0])
         return True
     ck.traces_validated += 1
     maxn = max([d["n"] for _, d in dumps] or [0])
@@ -944,6 +944,9 @@ def hu_gen_fq(rng, nops):
         lines.append("st %d %d %d %d %d %d" % (20 + rng.below(10), rng.below(9), rng.below(9), rng.below(6), rng.below(6), rng.below(20)))
     S = list(range(ns))
     T = list(range(ns, ns + nt))
+    # one suboptimality factor per script: peek() caches the front iterator and pop() reuses it whatever factor it is given
+    # (the cache is keyed on "queue modified", not on the factor); EIT* never changes the factor between peek and pop
+    fac = rng.choice(["inf", "inf", "inf", "1", "2"])
     for _ in range(nops):
         r = rng.below(100)
         s_, t_ = rng.choice(S), rng.choice(T)
@@ -955,9 +958,9 @@ def hu_gen_fq(rng, nops):
         elif r < 65:
             lines.append("rm %d %d" % (s_, t_))
         elif r < 85:
-            lines.append("pop " + rng.choice(["inf", "inf", "1", "2"]))
+            lines.append("pop " + fac)
         elif r < 93:
-            lines.append("peek " + rng.choice(["inf", "1"]))
+            lines.append("peek " + fac)
         elif r < 97:
             lines.append("rebuild")
         else:
@@ -968,18 +971,26 @@ def hu_gen_fq(rng, nops):
 def hu_gen_planner(rng, steps, name=None):
     name = name or rng.choice(HU_PLANNERS)
     boxes = []
-    for _ in range(rng.below(3)):
+    for _ in range(rng.range(1, 3)):
         x0, y0 = rng.range(20, 60), rng.range(0, 60)
         boxes.append((x0, y0, x0 + rng.range(5, 25), y0 + rng.range(10, 40)))
+
+    def inbox(x, y):
+        return any(b[0] <= x <= b[2] and b[1] <= y <= b[3] for b in boxes)
 
     def free():
         while True:
             x, y = rng.range(5, 95), rng.range(5, 95)
-            if not any(b[0] <= x <= b[2] and b[1] <= y <= b[3] for b in boxes):
+            if not inbox(x, y):
                 return x, y
-    s_, g_ = free(), free()
+    # the straight start-goal segment must cross an obstacle: with a free segment the planners find the optimum at once and the
+    # informed samplers (zero-measure set) never come back from their rejection loop - not a heap matter
+    while True:
+        s_, g_ = free(), free()
+        if any(inbox(s_[0] + (g_[0] - s_[0]) * k / 64.0, s_[1] + (g_[1] - s_[1]) * k / 64.0) for k in range(65)):
+            break
     lines = ["planner name=%s seed=%d lo=0 hi=10 start=%d,%d goal=%d,%d batch=%d boxes=%s" %
-             (name, rng.range(1, 1 << 20), s_[0], s_[1], g_[0], g_[1], rng.choice([6, 10, 15, 25]),
+             (name, rng.range(1, 1 << 20), s_[0], s_[1], g_[0], g_[1], rng.choice([6, 10, 20, 50, 100]),
               ",".join(",".join(map(str, b)) for b in boxes) or "none")]
     for _ in range(steps):
         lines.append("solve %d" % rng.choice([1, 1, 2, 2, 3, 5, 8]))
@@ -1067,7 +1078,7 @@ def run(ck):
     # ---- engine 2: the heap's users
     quick = ck.tier == "quick"
     ujobs = [(script, "corpus") for name, script in allcorpus if script[0].split()[0] in HU_USERS]
-    ng, ngd, nd, nq, nf, npl = (110, 50, 60, 150, 40, 60) if quick else (1600, 700, 800, 2200, 500, 700)
+    ng, ngd, nd, nq, nf, npl = (110, 50, 60, 150, 40, 125) if quick else (1600, 700, 800, 2200, 500, 1500)
     for i in range(ng):
         r = ck.rng.fork("hug%d" % i)
         ujobs.append((hu_gen_gridb(r, r.choice([20, 50, 120])), "random"))
@@ -1085,7 +1096,8 @@ def run(ck):
         ujobs.append((hu_gen_fq(r, r.choice([20, 60])), "random"))
     for i in range(npl):
         r = ck.rng.fork("hup%d" % i)
-        ujobs.append((hu_gen_planner(r, r.choice([15, 30, 60]) if quick else r.choice([30, 80, 160]), HU_PLANNERS[i % len(HU_PLANNERS)]), "planner-run"))
+        # long runs matter: in-place re-keying of queued edges happens on rewirings, i.e. in later batches (ABIT*: inflated searches)
+        ujobs.append((hu_gen_planner(r, r.choice([30, 100, 300, 300]) if quick else r.choice([100, 300, 600]), HU_PLANNERS[i % len(HU_PLANNERS)]), "planner-run"))
     ubad = 0
     with concurrent.futures.ThreadPoolExecutor(max_workers=min(16, (os.cpu_count() or 4))) as ex:
         chunk = 64
@@ -1159,14 +1171,39 @@ def replay(ck, data):
 
 MANIFEST = {
     "engine": "heap",
+    "engines": ["heap", "heapusers"],
     "category": "proof",
+    "level": "proof (BinaryHeap itself) + trace conformance with oracle (the heap's users)",
     "design_ref": "DESIGN.md 2.11",
     "text": "Lean 4 theorems over an executable model of BinaryHeap (heap order and contents preserved by every operation "
             "for every finite operation sequence, every key multiset and every strict weak order; top is a minimum; draining "
-            "yields a sorted permutation), tied to BinaryHeap.h by line-by-line differential runs of the real template against "
-            "the compiled model, plus an abstract-map oracle on the implementation's own outputs.",
+            "yields a sorted permutation; handles name their own element; the position field refines handle search; percolate as "
+            "coded = the swap model), tied to BinaryHeap.h by line-by-line differential runs of the real template against "
+            "the compiled model, plus an abstract-map oracle on the implementation's own outputs. "
+            "Engine 2 (heapusers) covers the property's anchors in the heap's USERS - GridB's internal_/external_ heaps (directly and "
+            "through KPIECE's Discretization), EIT*'s ReverseQueue/ForwardQueue standalone, and the BIT*/ABIT*/AIT*/EIT*/EIRM* queues "
+            "inside planner runs: each user is driven through its public API and the underlying heap array is dumped after every "
+            "operation (rank under the heap's own comparator + position field per slot, the user's live count, handle check, and what "
+            "popping a copy yields). PROVED about a dump: the executable audit heapOrdered decides the invariant HeapInv of the "
+            "heap theorems (heapOrdered_iff_inv); an array that passes it has a minimal top and pops as a sorted permutation "
+            "(audit_top_is_min, audit_pops_sorted) for every strict weak order; a false audit means exactly a violated parent/child "
+            "edge and need not show in the pop order yet (audit_false_names_bad_edge, audit_false_yet_pops_sorted, "
+            "bad_edge_surfaces_after_pop); audits and pop loop commute with the rank abstraction (audit_rank_invariant); key change "
+            "then update(handle) is safe for every reachable heap, key change without update (or update before the final value) breaks "
+            "the top (inplace_change_then_update_ok, inplace_change_without_update_breaks, update_before_final_value_breaks). "
+            "ONLY SAMPLED: that the users actually call update/rebuild after every in-place key change. The users' code is not "
+            "modelled; this is trace conformance + an oracle on the implementation's dumps (top has minimal rank, positions = slots, "
+            "size = live count and live set recomputed from the script, handles identify their element, the copy pops non-decreasingly, "
+            "pop/peek/top return a minimal element) with the model (drv_heapaudit: heapOrdered/topIsMin/popAll on the same rank vector) "
+            "as tie and as aim of a targeted search that replays a mis-ordered dump on the real BinaryHeap - not a proof about GridB, "
+            "SearchQueue, AITstar or ReverseQueue.",
     "note": "Trusted: Lean kernel, the three standard axioms, the hand-written model outside the scripts the correspondence "
-            "explored, the harness. The comparison functor is assumed to be a strict weak order; pop/top on an empty heap and dead "
-            "handles are outside the contract.",
-    "technique": "Lean 4 proof (invariant by induction over operations, refinement to a handle->key map) + differential correspondence",
+            "explored, the harnesses (heapusers.cpp opens private/protected in its own translation unit; ranks come from a stable sort "
+            "with the heap's comparator; pop order from a second BinaryHeap instance with the dumped array injected). The comparison "
+            "functor is assumed to be a strict weak order (AIT*'s vertex queue, whose functor breaks key ties by live vertex state, is "
+            "judged under its stored key order); pop/top on an empty heap and dead handles are outside the contract. Planner queues are "
+            "observed only at returns of solve() every 1-8 polls of the termination condition. ForwardQueue is not a BinaryHeap in "
+            "this tree (bookkeeping and least-effort pop only).",
+    "technique": "Lean 4 proof (invariant by induction over operations, refinement to a handle->key map, decidable audit of dumped "
+                 "arrays) + differential correspondence + trace conformance of the heap's users with a spec oracle",
 }
